@@ -65,6 +65,13 @@ def file_pairs(ctx):
     r1_unmeetable = M.envelope(M.md("root", 1, {"root": M.delegation((0,), 2), "key_mgr": M.delegation((4,), 2)}), (0,))
     r2_unsigned = M.envelope(M.md("root", 2, {"root": M.delegation((0,), 2), "key_mgr": M.delegation((4,), 2)}), ())
     j = lambda v: json.dumps(v).encode()
+    # declared types that are not strings, under a trusted file delegating roles named like Python's str() of them
+    r1_odd = M.envelope(M.md("root", 1, {"root": M.delegation((0,), 1), "None": M.delegation((4,), 1), "7": M.delegation((4,), 1), "True": M.delegation((4,), 1),
+                                        "['root']": M.delegation((4,), 1), "1.5": M.delegation((4,), 1), "{}": M.delegation((4,), 1)}), (0,))
+    odd_docs = {}
+    for nm, tyv in (("ty_null", None), ("ty_7", 7), ("ty_true", True), ("ty_list", ["root"]), ("ty_float", 1.5), ("ty_obj", {})):
+        sd = {"type": tyv, "x": 1}
+        odd_docs[nm] = {"signatures": {PUBHEX[4]: E.raw_sig(4, sd)}, "signed": sd}
     km_junk = {"signatures": dict(km["signatures"], **{"junk entry": 5, PUBHEX[0].upper(): {"signature": "zz"}}), "signed": km["signed"]}
     r2_note = M.envelope(M.root_md(2, (0, 1), 1, note="line one\nline two\ttabbed"), (0, 1))
     docs = {"r1": j(r1), "r2": j(r2), "r2_one": j(r2_one), "r3": j(r3), "r2_raw": j(r2_raw), "r2_self": j(r2_self), "km": j(km), "km_gpg": j(km_gpg),
@@ -74,18 +81,19 @@ def file_pairs(ctx):
             "signed_list": j({"signatures": {}, "signed": [1]}), "type_int": j({"signatures": {}, "signed": {"type": 5}}),
             "type_null": j({"signatures": {}, "signed": {"type": None}}), "notype": j({"signatures": {}, "signed": {"x": 1}}),
             "truncated": j(r2)[:-20], "nan": b'{"signatures": {}, "signed": {"type": "root", "version": NaN}}', "utf16": json.dumps(r2).encode("utf-16"),
-            "km_junk": j(km_junk), "r2_note": j(r2_note),
+            "km_junk": j(km_junk), "r2_note": j(r2_note), "r1_odd": j(r1_odd), **{k: j(v) for k, v in odd_docs.items()},
             # the same signed document with the escaped line feed / tab of a string written as the literal control character: not JSON
             "r2_note_literal_lf": j(r2_note).replace(b"\\n", b"\n"), "r2_note_literal_tab": j(r2_note).replace(b"\\t", b"\t"),
             "missing": None, "r2_bom": b"\xef\xbb\xbf" + j(r2), "nonascii_type": j({"signatures": {}, "signed": {"type": "röle\ud800"}})}
     pairs = [("r1", "r2"), ("r1", "r2_one"), ("r1", "r3"), ("r2", "r3"), ("r1", "r1"), ("r2", "r1"), ("r1", "r2_raw"), ("r1", "r2_self"), ("r1", "km"), ("r1", "km_gpg"),
              ("km_rootdeleg", "root_raw_by2"), ("km_rootdeleg", "root_gpg_by2"), ("r1_unmeetable", "km_wrongkey"), ("r1_unmeetable", "r2_unsigned"), ("r1_unmeetable", "km"),
+             ("r1_odd", "ty_null"), ("r1_odd", "ty_7"), ("r1_odd", "ty_true"), ("r1_odd", "ty_list"), ("r1_odd", "ty_float"), ("r1_odd", "ty_obj"),
              ("r1", "km_junk"), ("r1", "r2_note"), ("r1", "r2_note_literal_lf"), ("r1", "r2_note_literal_tab"),
              ("r1", "km_unsigned"), ("r1", "km_wrongkey"), ("r1", "root_as_km"), ("km", "pkg"), ("r1", "other"), ("r1_pkg", "other"), ("km", "r2"), ("r2", "km")]
     bad = ["empty", "garbage", "list", "string", "nosigned", "signed_list", "type_int", "type_null", "notype", "truncated", "nan", "utf16", "missing", "r2_bom", "nonascii_type"]
     pairs += [("r1", b) for b in bad] + [(b, "r2") for b in bad] + [(b, "km") for b in bad[:6]] + [("missing", "missing"), ("garbage", "garbage")]
     if ctx.quick:
-        pairs = pairs[:27] + rng.sample(pairs[27:], 14)
+        pairs = pairs[:33] + rng.sample(pairs[33:], 14)
     return docs, pairs
 
 
